@@ -361,6 +361,12 @@ class World:
             return VClass(obj.name + '.' + name)
         if isinstance(obj, VClass):
             return VMethod(obj, name)
+        if isinstance(obj, VFunctor):
+            if name == 'ar_factory':
+                return VClass(obj.ar_factory)
+            if name == 'ob_factory':
+                return VClass('monoidal.Ty')
+            return VMethod(obj, name)
         if isinstance(obj, (VList, VTuple, VMethod, VOpaque, VInt, VStr)):
             return VMethod(obj, name)
         raise Unsupported('attribute .%s of %s' % (name, obj.kind))
@@ -422,7 +428,34 @@ class World:
             return self.construct(interp, fn.name, args, kwargs)
         if isinstance(fn, VMethod):
             return self.call_method(interp, fn.recv, fn.name, args, kwargs)
+        if isinstance(fn, VFunctor):
+            return self.functor_call(interp, fn, args[0])
         raise Unsupported('call of ' + fn.kind)
+
+    def functor_ty(self, interp, F, t):
+        """F(t) for a type t: FT(t), with the homomorphism instance for the concatenation t is written as"""
+        ex = interp.ex
+        parts = T._seq_parts(t)
+        if not parts:
+            ex.assume(F.FT(T.EMPTY) == T.EMPTY)
+            return T.EMPTY
+        whole = F.FT(t)
+        if len(parts) > 1:
+            ex.assume(whole == T.ty_concat(*[F.FT(p) for p in parts]))
+        return whole
+
+    def functor_call(self, interp, F, arg):
+        ex = interp.ex
+        if isinstance(arg, VTy):
+            return VTy(self.functor_ty(interp, F, arg.t))
+        if isinstance(arg, VBox):
+            key = arg.t.sexpr()
+            if key not in F.images:
+                dom = self.functor_ty(interp, F, T.bdom(arg.t))
+                cod = self.functor_ty(interp, F, T.bcod(arg.t))
+                F.images[key] = ex.sym_diagram(T.fresh_name(F.name + '.img'), wf=True, dom=dom, cod=cod, global_inst=True)
+            return F.images[key]
+        raise Unsupported('functor applied to ' + arg.kind)
 
     def spec_mode_inline(self, q):
         return False
